@@ -420,6 +420,24 @@ def hb_code_table(ctx, props=('C09', 'C10')):
             ctx.find(list(props), 'RF1-hb-code', 'CONmtModeEncode', 'encode:%s' % mode,
                      m.loc('CONmtModeEncode', m.funcs['CONmtModeEncode'].line),
                      'encoding of %s returns %s, required %d' % (mode, sorted(rets, key=str), code))
+    # the decode function (heartbeat consumer side) inverts the table for every defined state byte and
+    # maps everything else to CO_INVALID
+    m.need('CONmtModeDecode')
+    pd = PEval(m, 'CONmtModeDecode')
+    dprops = ['C11']
+    inv = dict((code, mode) for mode, code in spec.NMT_HB_CODE.items())
+    for code in sorted(set(list(inv) + [1, 2, 3, 6, 126, 128, 255])):
+        want = m.enum(inv[code]) if code in inv else m.enum('CO_INVALID')
+        trs = pd.run({'code': code})
+        rets = set(t.ret for t in trs)
+        site = 'CONmtModeDecode(%d)' % code
+        if rets == set([want]):
+            ctx.ob(dprops, 'RF1-hb-code', 'CONmtModeDecode', site, 'returns %s' % (inv.get(code, 'CO_INVALID')))
+        else:
+            ctx.ob(dprops, 'RF1-hb-code', 'CONmtModeDecode', site, None)
+            ctx.find(dprops, 'RF1-hb-code', 'CONmtModeDecode', 'decode:%d' % code,
+                     m.loc('CONmtModeDecode', m.funcs['CONmtModeDecode'].line),
+                     'heartbeat state byte %d decodes to %s, required %s (%d)' % (code, sorted(rets, key=str), inv.get(code, 'CO_INVALID'), want))
 
 
 def run(ctx):
